@@ -783,7 +783,7 @@ def _validate(
                 if rate is None:
                     rate = result
                 else:
-                    rate += result
+                    rate = rate + result  # not in-place: ``rate`` may be the caller's object
         rates[k] = rate
         seen |= set([s.name for s in expr.free_symbols])
     if check_conditions_no_extra:
